@@ -13,7 +13,7 @@ import random
 
 UNIT = "u5_bcint_ops"
 MOD = "exec::bcint::ops::verif_u5::"
-KANI_FLAGS = []
+KANI_FLAGS = ["-Z", "stubbing"]
 TRUSTED = [
     "bytecode semantics `bc_step` written in the harness (reads in operand order src0, src1; MemZero = read then clear; Tmp(0)/Tmp(1) live in r0/r1)",
     "stream layout [op, src0 word?, src1 word?, dst word?] and operand-kind selection as pushed by ops::emit -- by inspection only: emit itself is out of Kani's reach (65 GB in goto-instrument)",
@@ -46,22 +46,17 @@ def _groups(tier, seed):
                   ("sub2", "Reg0", "Zero", "Reg0"), ("add2", "Mem", "Mem", "MemZero")]
         binsel = [(t, "u8") for t in must_b + rnd.sample([t for t in allbin if t not in must_b], 28)]
         tersel = [(t, "u8") for t in must_t + rnd.sample([t for t in allter if t not in must_t], 28)]
-        # 64-bit instances: the operand accessors are the same code for every op, and the product
-        # itself is covered at u8; a 64-bit multiplier behind symbolic operand muxes is the one
-        # thing CBMC may need minutes for (seed-dependent timeouts), so the sampled 64-bit
-        # instances are add / sub / copy and the 64-bit products are two fixed register forms.
-        binsel += [(t, "u64") for t in rnd.sample([t for t in allbin if t[0] != "mul"], 4)]
-        tersel += [(t, "u64") for t in rnd.sample([t for t in allter if t[0] != "mul2"], 4)]
+        # 64-bit instances.  (Products at 32 / 64 bits are proved with the multiplication itself
+        # UNINTERPRETED -- see `verif_uf_mul_*` in the prelude: two 64-bit multiplier circuits behind
+        # symbolic operand muxes cost CBMC minutes and time out depending on the instance.)
+        binsel += [(t, "u64") for t in rnd.sample(allbin, 4)]
+        tersel += [(t, "u64") for t in rnd.sample(allter, 4)]
         binsel += [(("mul", "Reg1", "Reg0"), "u64")]
-        tersel += [(("mul2", "Reg0", "Reg1", "Imm"), "u64")]
+        tersel += [(("mul2", "Reg0", "Reg1", "Imm"), "u64"), (("mul2", "Tmp", "MemZero", "NegOne"), "u64")]
         binsel += [(t, rnd.choice(["u16", "u32"])) for t in rnd.sample(allbin, 2)]
     else:
-        # a 64-bit product with a CONSTANT operand (Zero / One / NegOne) does not finish in CBMC: the
-        # real op sees the constant at compile time (and the multiplier is simplified away), the
-        # contract function only during symbolic execution -- two structurally different circuits.
-        # Those instantiations are stated at 16 bits instead (same code, generic in the width; 32 bits still needs 4-12 min each).
         def wide(t):
-            return "u16" if t[0] in ("mul", "mul2") and any(x in ("Zero", "One", "NegOne") for x in t[2:]) else "u64"
+            return "u64"
         binsel = [(t, "u8") for t in allbin] + [(t, wide(t)) for t in allbin] + [(t, w) for t in rnd.sample(allbin, 24) for w in ("u16", "u32")]
         tersel = [(t, "u8") for t in allter] + [(t, wide(t)) for t in rnd.sample(allter, 160)] + \
                  [(t, w) for t in rnd.sample(allter, 24) for w in ("u16", "u32")]
@@ -87,8 +82,11 @@ def _harness_text(tier, seed):
     src = open(os.path.join(HERE, "u5_bcint_ops.rs.in")).read()
     out = [src]
     for name, w, calls, fn, kind in _groups(tier, seed):
-        out.append("#[kani::proof]\n#[kani::unwind(8)]\nfn %s() {\n    unsafe {\n        %s\n    }\n}\n" % (
-            name, "\n        ".join(calls)))
+        stub = ""
+        if w in ("u32", "u64") and "_mul" in name[:7]:
+            stub = "#[kani::stub(<%s as CellType>::wrapping_mul, verif_uf_mul_%s)]\n" % (w, w)
+        out.append("#[kani::proof]\n#[kani::unwind(8)]\n%sfn %s() {\n    unsafe {\n        %s\n    }\n}\n" % (
+            stub, name, "\n        ".join(calls)))
     return "\n".join(out)
 
 
